@@ -615,6 +615,10 @@ class ExactlyK(_KInARow):
         sublistss = block.build_variable_lists(level, self.within_block)
 
         for sublists in sublistss:
+            if not sublists:
+                # The factor has no level in any trial of the window, so a count of k > 0 cannot be reached
+                backend_request.cnfs.append(And([1, -1]))
+                continue
             backend_request.ll_requests.append(LowLevelRequest("EQ", self.k, sublists))
 
     def __eq__(self, other):
